@@ -270,7 +270,11 @@ package sshfx
 //@   property C08
 
 //@ func (*NamePacket).UnmarshalPacketBody
-//@   property C08
+//@   property C08, C06
+//@   loop 1 invariant older(p.Entries) && forall(k, 0 <= k && k < len(p.Entries) ==> older(p.Entries[k]))
+//@   loop 1 invariant forall(k, forall(j, 0 <= k && k < j && j < len(p.Entries) ==> p.Entries[k] != p.Entries[j]))
+//@   ensures err == nil ==> forall(k, forall(j, 0 <= k && k < j && j < len(p.Entries) ==> p.Entries[k] != p.Entries[j]))
+// (every decoded name entry is an object of its own)
 //@   alloc-bound 4*len(buf.b) + 128
 //@   results err
 //@   requires bufOK(buf)
@@ -279,7 +283,11 @@ package sshfx
 //@   ensures bufOK(buf)
 
 //@ func (*InitPacket).UnmarshalBinary
-//@   property C08, C19
+//@   property C08, C19, C06
+//@   loop 1 invariant older(p.Extensions) && forall(i, 0 <= i && i < len(p.Extensions) ==> older(p.Extensions[i]))
+//@   loop 1 invariant forall(i, forall(j, 0 <= i && i < j && j < len(p.Extensions) ==> p.Extensions[i] != p.Extensions[j]))
+//@   ensures forall(i, forall(j, 0 <= i && i < j && j < len(p.Extensions) ==> p.Extensions[i] != p.Extensions[j]))
+// (every decoded extension pair is an object of its own)
 //@   results err
 //@   alloc-bound 2*len(data) + 1024
 //@   loop 1 invariant bufOK(buf) && (buf.Err == nil || buf.off == len(buf.b)) && len(buf.b) == len(data) && len(p.Extensions) >= 0 && len(p.Extensions) * 8 <= buf.off
@@ -289,7 +297,10 @@ package sshfx
 // (a body that ends inside the version word is an error, not version 0)
 
 //@ func (*VersionPacket).UnmarshalBinary
-//@   property C08, C19
+//@   property C08, C19, C06
+//@   loop 1 invariant older(p.Extensions) && forall(i, 0 <= i && i < len(p.Extensions) ==> older(p.Extensions[i]))
+//@   loop 1 invariant forall(i, forall(j, 0 <= i && i < j && j < len(p.Extensions) ==> p.Extensions[i] != p.Extensions[j]))
+//@   ensures forall(i, forall(j, 0 <= i && i < j && j < len(p.Extensions) ==> p.Extensions[i] != p.Extensions[j]))
 //@   results err
 //@   alloc-bound 2*len(data) + 1024
 //@   loop 1 invariant bufOK(buf) && (buf.Err == nil || buf.off == len(buf.b)) && len(buf.b) == len(data) && len(p.Extensions) >= 0 && len(p.Extensions) * 8 <= buf.off
